@@ -155,7 +155,7 @@ fn version_verdict(bytes: &[u8], v: (u8, u8, u8)) -> Result<u64, (String, String
 
 pub fn run() {
 	let cx = ctx();
-	cx.note("rule", json!("archives of the corner list (base, zero frames, no/empty metadata, no end, double end, gecko, nothing) per layout-class representative x {none, LZ4, ZSTD} x hash {off,on}, inspected with the harness's own tar reader: signature at offset 0, entry order, every JSON entry valid and equal to the rendering of what peppi::read reconstructs, raw entries equal to the raw blocks, two writes byte-identical; unknown entries (names x, zz.json, frames.arrow.bak, empty name-ish, 3 KB) inserted at EVERY position before frames.arrow, singly and in pairs: game unchanged; peppi.json rewritten (own tar writer, checksum recomputed) with format version triples: quick all (major,minor) at patch 0 and all triples over {0,1,2,3,255}; thorough ALL 2^24: read is Err iff triple < (2,0,0). Every case non-trivial; distinct by construction"));
+	cx.note("rule", json!("archives of the corner list (base, zero frames, no/empty metadata, no end, double end, gecko, nothing) per layout-class representative x {none, LZ4, ZSTD} x hash {off,on}, inspected with the harness's own tar reader: signature at offset 0, entry order, every JSON entry valid and equal to the rendering of what peppi::read reconstructs, raw entries equal to the raw blocks, two writes byte-identical; plus 1,101 metadata sizes growing byte by byte over more than two tar blocks (every entry length modulo 512); unknown entries (names x, zz.json, frames.arrow.bak, empty name-ish, 3 KB) inserted at EVERY position before frames.arrow, singly and in pairs: game unchanged; peppi.json rewritten (own tar writer, checksum recomputed) with format version triples: quick all (major,minor) at patch 0 and all triples over {0,1,2,3,255}; thorough ALL 2^24: read is Err iff triple < (2,0,0). Every case non-trivial; distinct by construction"));
 	cx.note("exhaustive", json!(true));
 	cx.note("assumptions", json!(["for a game without frames the statement leaves the presence of frames.arrow open: both accepted"]));
 	let versions = if cx.quick() { vec![(0, 1), (1, 3), (2, 0), (2, 2), (3, 0), (3, 3), (3, 7), (3, 13), (3, 16)] } else { spec::v_rep() };
@@ -174,6 +174,22 @@ pub fn run() {
 	}
 	for (i, a) in crate::gen::universe(cx.quick()).into_iter().enumerate() {
 		cases.push((a, P { comp: (i % 3) as u8, hash: i % 2 == 1, class: "universe", ..Default::default() }));
+	}
+	// entry sizes around the tar block size: metadata whose JSON rendering grows one byte at a time over more
+	// than two 512-byte blocks (every residue of the entry length modulo 512, including 0, twice)
+	for l in 0..=1100usize {
+		let mut a = base_replay((3, 16), vec![pc(0, false), pc(1, false)], 1);
+		let mut m: crate::ubj::Meta = vec![];
+		let mut left = l;
+		let mut k = 0;
+		while left > 0 || k == 0 {
+			let n = left.min(250);
+			m.push((format!("k{}", k), crate::ubj::MVal::Str("x".repeat(n))));
+			left -= n;
+			k += 1;
+		}
+		a.metadata = Some(m);
+		cases.push((a, P { comp: (l % 3) as u8, hash: false, class: "entry-size", ..Default::default() }));
 	}
 	par_each(cases.into_iter(), |(abs, p), local| {
 		let bytes = Arc::new(record(&abs).doc.assemble());
@@ -242,11 +258,11 @@ pub fn run() {
 			local.nontrivial += 1;
 			local.outcomes.insert(fnv_mix(11, (v < (2, 0, 0)) as u64));
 			local.states.insert(fnv_mix(11, (v < (2, 0, 0)) as u64));
-			if version_verdict(&bytes, v).is_err() {
+			if let Err((_, first)) = version_verdict(&bytes, v) {
 				let mut p = P { class: "format-version", ..Default::default() };
 				p.n = [ma as i64, mi as i64, pa as i64, 0, 0, 0];
 				local.evaluations -= 1;
-				eval_case("archive_version", o_archive_version, &arch2, &p, || format!("format version {}.{}.{}", ma, mi, pa), local);
+				eval_flagged("archive_version", o_archive_version, &arch2, &p, || format!("format version {}.{}.{}", ma, mi, pa), first, local);
 			}
 		}
 	});
